@@ -148,7 +148,7 @@ class C19:
     id = "C19"
     level = "exploration"
     variants = ("asan",)
-    rule = ("schemas (hand-built and random: all option kinds incl. FUNC/PTR, unset scalars, empty lists, multi sections with "
+    rule = ("schemas (hand-built and random: all option kinds incl. FUNC/PTR and top-level CFG_SIMPLE_*, unset scalars, empty lists, multi sections with "
             "0-3 instances, depth <= 4) x states reached by parsing (with single-line annotations) x filter predicates "
             "(hide-sets of names, 8 distinct predicates) installed on any subset of {root, each section instance}, optionally "
             "preceded by a filter history (a predicate installed on the root or a plain section before the parse creates "
